@@ -18,12 +18,13 @@ impl Function {
 // (sorted id tuple, coefficient) pairs; each id tuple is sorted and uses only ids of the function
 #[verifier::external_body]
 pub fn fn_terms(f: &Function) -> (r: Vec<(SortedIds, F64)>)
+    requires fn_coo_ok(*f)      // IntoIterator for &Quadratic asserts equal COO lengths
     ensures r@ == fterms(*f),   // the list is a function of the message; its terms sum to the polynomial (axiom ax_fterms_sum in spec/qubo_spec.rs)
         fn_fin(*f) ==> ft_fin(r@),
         forall|j: int| 0 <= j < r.len() ==> ids_sorted((#[trigger] r[j]).0.0@) && forall|t: int| 0 <= t < r[j].0.0.len() ==> fn_used(*f).contains(r[j].0.0[t])
 { unimplemented!() }
 impl BinaryIdPair {
-    // TryFrom<SortedIds> for BinaryIdPair -> TryFrom<Vec<u64>> (slice patterns: outside Verus; bounded Kani stand-in in the thorough tier)
+    // TryFrom<SortedIds> for BinaryIdPair -> TryFrom<Vec<u64>> (slice patterns: outside Verus; exercised by the bounded stand-in)
     #[verifier::external_body] pub fn try_from_sorted(ids: SortedIds) -> (r: Result<BinaryIdPair, VErr>)
         ensures r is Ok ==> r->Ok_0.0 <= r->Ok_0.1 && (forall|t: int| 0 <= t < ids.0.len() ==> ids.0[t] == r->Ok_0.0 || ids.0[t] == r->Ok_0.1)
             && (exists|t: int| 0 <= t < ids.0.len() && ids.0[t] == r->Ok_0.0) && (exists|t: int| 0 <= t < ids.0.len() && ids.0[t] == r->Ok_0.1),
@@ -52,6 +53,8 @@ def as_pubo_format():
     return Unit('Instance::as_pubo_format', F, 'as_pubo_format', impl=I, wrap=W,
                 sig='pub fn as_pubo_format(&self) -> Result<BTreeMap<BinaryIds, f64>>',
                 header='''pub fn as_pubo_format(&self) -> (r: Result<BTreeMap<BinaryIds, F64>, VErr>)
+    // observation: the term iterator panics on a Quadratic objective whose COO arrays differ in length
+    requires fn_coo_ok(ofun(*self)),
     ensures
 ''' + REFUSE + '''
         r is Err ==> (self.constraints.len() > 0 || self.sense == 2 || exists|k: u64| #![trigger fn_used(ofun(*self)).contains(k)] fn_used(ofun(*self)).contains(k) && !is_binary_id(self.decision_variables@, k)),
@@ -79,6 +82,8 @@ def as_qubo_format():
     return Unit('Instance::as_qubo_format', F, 'as_qubo_format', impl=I, wrap=W,
                 sig='pub fn as_qubo_format(&self) -> Result<(BTreeMap<BinaryIdPair, f64>, f64)>',
                 header='''pub fn as_qubo_format(&self) -> (r: Result<(BTreeMap<BinaryIdPair, F64>, F64), VErr>)
+    // observation: the term iterator panics on a Quadratic objective whose COO arrays differ in length
+    requires fn_coo_ok(ofun(*self)),
     ensures
 ''' + REFUSE + '''
         // keys are canonical pairs i <= j over ids of the objective, no stored coefficient is (numerically) zero
